@@ -17,6 +17,9 @@ for d in dirs:
     if json.load(open(os.path.join(d, "meta.json"))).get("excluded"):
         out[sid] = {"excluded": True}
         print(sid, "EXCLUDED (see meta.json)", flush=True)
+        cur = json.load(open("/verif/seeded/regression.json")) if os.path.exists("/verif/seeded/regression.json") else {}
+        cur[sid] = out[sid]
+        json.dump(cur, open("/verif/seeded/regression.json", "w"), indent=1)
         continue
     cid = OTHER_CHECK.get(sid, sid.split("-")[0])
     cmd = [sys.executable, "/verif/tools/seeded.py", d, "--checks", cid] + (["--skip-validate"] if skip else [])
@@ -32,4 +35,14 @@ for d in dirs:
     except Exception as e:
         out[sid] = {"error": p.stdout[-400:]}
         print(sid, "ERROR", p.stdout[-300:], flush=True)
-    json.dump(out, open("/verif/seeded/regression.json", "w"), indent=1)
+    # several runs may work on different ids at the same time: re-read, replace this id's entry only, write atomically
+    cur = {}
+    if os.path.exists("/verif/seeded/regression.json"):
+        try:
+            cur = json.load(open("/verif/seeded/regression.json"))
+        except Exception:
+            cur = dict(out)
+    cur[sid] = out[sid]
+    tmp = "/verif/seeded/regression.json.%d.tmp" % os.getpid()
+    json.dump(cur, open(tmp, "w"), indent=1)
+    os.replace(tmp, "/verif/seeded/regression.json")
